@@ -260,6 +260,15 @@ fn check_rule(rule: &Rule, case: &mut Case) -> Result<(), Fail> {
         }
         Err(DecErr::Shape) => return Err(Fail::new("harness:schema", "shape")),
         Ok((want, Fill::Exact)) => {
+            // a mutation can turn a length octet into a pointer: forward pointers and long chains may be refused (no claim, as in C06)
+            if got.is_err() && is_typed(code) {
+                if let Ok((_, _, names)) = schema_decode(code, &msg, w.records[0].rdata_off, w.records[0].end) {
+                    if names.iter().any(|n| !n.dec.all_backward || n.dec.hops > 32) {
+                        case.class(format!("{}:refused-forward-pointer", label));
+                        return Ok(());
+                    }
+                }
+            }
             case.class(format!("{}:must-accept", label));
             let p = got.map_err(|e| Fail::new(format!("c10:rejects-valid:{}", label.split(':').next().unwrap()), format!("{} RDATA {} is well-formed but rejected: {:?}", mnemonic(code), hex(&rdata), e)))?;
             if code == 41 {
